@@ -137,3 +137,53 @@ pub fn settle_threads(baseline: usize, max_ms: u64) -> bool {
 pub fn settle_threads(_baseline: usize, _max_ms: u64) -> bool {
     true
 }
+
+/// Before the process exits: wait (at most ~2 s) until the reloader threads that are still
+/// around (leaked `'static` caches, caches dropped a moment ago) have gone to sleep or away.
+/// LeakSanitizer takes its snapshot at exit; a thread caught in the middle of growing one of
+/// its tables at that instant was once reported as a leak (not reproducible in 3 re-runs).
+#[cfg(not(miri))]
+pub fn quiesce_reloaders() {
+    let sample = || -> Vec<(i32, u64)> {
+        crate::procfs::reloader_tasks()
+            .into_iter()
+            .map(|t| (t.tid, t.ticks + crate::procfs::voluntary_switches(t.tid).unwrap_or(0)))
+            .collect()
+    };
+    let mut prev = sample();
+    let mut stable = 0;
+    for _ in 0..100 {
+        std::thread::sleep(std::time::Duration::from_millis(20));
+        let now = sample();
+        if now == prev {
+            stable += 1;
+            if stable >= 3 {
+                return;
+            }
+        } else {
+            stable = 0;
+        }
+        prev = now;
+    }
+}
+
+#[cfg(miri)]
+pub fn quiesce_reloaders() {}
+
+/// One step of a busy wait: a CPU pause, and every 128th call on a thread a `yield_now`, so that
+/// spin barriers keep the racers tightly aligned on an idle machine and still make progress
+/// when there are more runnable threads than cores (thorough tier: dozens of processes).
+#[inline]
+pub fn pause() {
+    thread_local! { static N: std::cell::Cell<u32> = const { std::cell::Cell::new(0) }; }
+    let n = N.with(|c| {
+        let v = c.get().wrapping_add(1);
+        c.set(v);
+        v
+    });
+    if n % 128 == 0 || cfg!(miri) {
+        std::thread::yield_now();
+    } else {
+        std::hint::spin_loop();
+    }
+}
